@@ -305,7 +305,7 @@ impl Property for C09 {
         "C09"
     }
     fn rule(&self) -> String {
-        "binary trees (dims 1..3, depth <= 4, total and partial, arena layouts with holes/reused indices, hyperplanes through anchor points) x inputs (anchors, lattice neighbours, free lattice points) x scripts of next/skip_subtree on polyhedra(): the polyhedra_iter stream must equal depth-first order with depth/sibling counters and the half-spaces rebuilt from raw parent links (also after skips); find_terminal's labels must lead to the returned node via raw child links and agree with exact evaluation of the predicates; the input must satisfy all reported conditions along its path; an exact interior point of every node's reported polytope must be routed through that node; terminal regions must have disjoint interiors; total trees must be defined everywhere. Non-trivial = depth >= 2, >= 1 input exactly on a hyperplane and >= 1 skip in the script; distinct = distinct serialised cases".into()
+        "binary trees (dims 1..3, depth <= 4, total and partial, arena layouts with holes/reused indices, hyperplanes through anchor points) x inputs (anchors, lattice neighbours, free lattice points) x scripts of next/skip_subtree on polyhedra(): the polyhedra_iter stream must equal depth-first order with depth/sibling counters and the half-spaces rebuilt from raw parent links (also after skips); nth / skip / step_by / last / count on polyhedra_iter must agree with repeated next(); find_terminal's labels must lead to the returned node via raw child links and agree with exact evaluation of the predicates; the input must satisfy all reported conditions along its path; an exact interior point of every node's reported polytope must be routed through that node; terminal regions must have disjoint interiors; total trees must be defined everywhere. Non-trivial = depth >= 2, >= 1 input exactly on a hyperplane and >= 1 skip in the script; distinct = distinct serialised cases".into()
     }
     fn assumptions(&self) -> Vec<String> {
         vec!["K = 2 (the path-polytope code panics by design on labels >= 2)".into(), "label 1 is the closed side a.x <= b, label 0 the open side (documentation of evaluate_decision)".into()]
